@@ -58,6 +58,7 @@ public:
     AnyCellmlElementPtr convertToWeak(const AnyCellmlElementPtr &item);
     AnyCellmlElementPtr convertToShared(const AnyCellmlElementPtr &item);
 
+    bool importSourceListed(const ItemList &idList, const std::string &id, const ImportSourcePtr &importSource);
     void listComponentIdsAndItems(const ComponentPtr &component, ItemList &idList);
     ItemList listIdsAndItems(const ModelPtr &model);
 
@@ -159,6 +160,19 @@ inline bool equals(const std::weak_ptr<T> &t, const std::weak_ptr<U> &u)
     return !t.owner_before(u) && !u.owner_before(t);
 }
 
+/**
+ * An import source that is shared by several imported entities (one import
+ * element with several children) is one item: it is listed once.
+ */
+bool Annotator::AnnotatorImpl::importSourceListed(const ItemList &idList, const std::string &id, const ImportSourcePtr &importSource)
+{
+    auto range = idList.equal_range(id);
+    return std::any_of(range.first, range.second, [=](const auto &entry) {
+        return (entry.second->type() == CellmlElementType::IMPORT)
+               && (std::any_cast<ImportSourceWeakPtr>(entry.second->mPimpl->mItem).lock() == importSource);
+    });
+}
+
 void Annotator::AnnotatorImpl::listComponentIdsAndItems(const ComponentPtr &component, ItemList &idList)
 {
     std::string id = component->id();
@@ -171,7 +185,7 @@ void Annotator::AnnotatorImpl::listComponentIdsAndItems(const ComponentPtr &comp
     ImportSourcePtr importSource = component->importSource();
     if (importSource != nullptr) {
         id = importSource->id();
-        if (!id.empty()) {
+        if (!id.empty() && !importSourceListed(idList, id, importSource)) {
             auto entry = AnyCellmlElement::AnyCellmlElementImpl::create();
             entry->mPimpl->setImportSource(importSource);
             idList.insert(std::make_pair(id, convertToWeak(entry)));
@@ -321,7 +335,7 @@ ItemList Annotator::AnnotatorImpl::listIdsAndItems(const ModelPtr &model)
         if (units->isImport()) {
             ImportSourcePtr importSource = units->importSource();
             id = importSource->id();
-            if (!id.empty()) {
+            if (!id.empty() && !importSourceListed(idList, id, importSource)) {
                 auto entry = AnyCellmlElement::AnyCellmlElementImpl::create();
                 entry->mPimpl->setImportSource(importSource);
                 idList.insert(std::make_pair(id, convertToWeak(entry)));
